@@ -339,6 +339,15 @@ class Evaluator(object):
                 d.keys[k.v] = v
             else:
                 raise AnalysisError("subscript store not modelled: %s" % dump(t))
+        elif isinstance(t, (ast.Tuple, ast.List)):
+            if isinstance(v, K) and isinstance(v.v, tuple) and len(v.v) == len(t.elts):
+                vals = [K(x) for x in v.v]
+            elif isinstance(v, L) and len(v.elts) == len(t.elts):
+                vals = list(v.elts)
+            else:
+                raise AnalysisError("unpacking %r into %s not modelled" % (v, dump(t)))
+            for e2, v2 in zip(t.elts, vals):
+                self.assign(e2, v2, env, fi)
         else:
             raise AnalysisError("assignment target not modelled: %s" % dump(t))
 
@@ -390,6 +399,14 @@ class Evaluator(object):
             if all(isinstance(x, K) for x in vals):
                 return K(tuple(x.v for x in vals))
             return L(vals)
+        if isinstance(e, ast.Subscript) and isinstance(e.slice, ast.Slice):
+            d = self.expr(e.value, env, fi)
+            parts = [self.expr(x, env, fi) if x is not None else K(None) for x in (e.slice.lower, e.slice.upper, e.slice.step)]
+            if isinstance(d, K) and all(isinstance(x, K) for x in parts):
+                return K(d.v[slice(parts[0].v, parts[1].v, parts[2].v)])
+            if isinstance(d, L) and all(isinstance(x, K) for x in parts):
+                return L(d.elts[slice(parts[0].v, parts[1].v, parts[2].v)])
+            raise AnalysisError("slice not modelled: %s" % dump(e))
         if isinstance(e, ast.Subscript):
             d = self.expr(e.value, env, fi)
             k = self.expr(e.slice, env, fi)
@@ -588,10 +605,25 @@ class Evaluator(object):
                 return K(len(args[0].v))
             except TypeError:
                 raise _Raise("TypeError")
-        if isinstance(f, ast.Attribute) and f.attr in ("values", "keys") and not args:
+        if isinstance(f, ast.Attribute) and f.attr in ("values", "keys", "items") and not args:
             base = self.expr(f.value, env, fi)
             if isinstance(base, D):
+                if f.attr == "items":
+                    return L([L([K(k), v]) for k, v in base.items.items()])
                 return L([K(k) for k in base.items] if f.attr == "keys" else list(base.items.values()))
+        if isinstance(f, ast.Attribute) and f.attr == "pop" and args and isinstance(args[0], K):
+            base = self.expr(f.value, env, fi)
+            if isinstance(base, D):
+                if args[0].v in base.items:
+                    return base.items.pop(args[0].v)
+                if len(args) > 1:
+                    return args[1]
+                raise _Raise("KeyError")
+        if isinstance(f, ast.Attribute) and f.attr == "update" and len(args) == 1:
+            base = self.expr(f.value, env, fi)
+            if isinstance(base, D) and isinstance(args[0], D):
+                base.items.update(args[0].items)
+                return K(None)
         if fname == "tuple" and len(args) == 1 and isinstance(args[0], L) and all(isinstance(x, K) for x in args[0].elts):
             return K(tuple(x.v for x in args[0].elts))
         if isinstance(f, ast.Attribute) and f.attr == "append" and len(args) == 1:
@@ -675,6 +707,9 @@ class Evaluator(object):
                     base.keys[args[0].v] = args[1] if len(args) > 1 else K(None)
                 return base.keys[args[0].v]
             if isinstance(base, Opaque):
+                if not hasattr(self, "opaque_calls"):
+                    self.opaque_calls = []
+                self.opaque_calls.append((base.label, f.attr, args, kwargs))
                 rv = base.attrs.get(f.attr + "()")
                 if rv is not None:
                     return rv
